@@ -30,6 +30,7 @@ impl TokCase {
             profile: false,
             initial_state: if self.start == StartState::Data { None } else { Some(real_state(self.start)) },
             last_start_tag: self.last_tag.clone(),
+            set_plaintext_first: false,
         }
     }
     fn to_json(&self, cuts: &[usize]) -> Value {
@@ -206,6 +207,7 @@ fn opts_json(o: &HtmlOpts) -> Value {
         "discard_bom": o.tok.discard_bom, "profile": o.tok.profile,
         "context": o.context.as_ref().map(|c| json!({"ns": c.0, "local": c.1, "attrs": c.2})),
         "context_allows_scripting": o.context_allows_scripting,
+        "allow_shadow": o.allow_shadow,
     })
 }
 
@@ -225,6 +227,7 @@ pub fn opts_from_json(v: &Value) -> HtmlOpts {
     o.tok.discard_bom = v["discard_bom"].as_bool().unwrap_or(true);
     o.tok.profile = v["profile"].as_bool().unwrap_or(false);
     o.context_allows_scripting = v["context_allows_scripting"].as_bool().unwrap_or(true);
+    o.allow_shadow = v["allow_shadow"].as_bool().unwrap_or(false);
     if let Some(c) = v.get("context").filter(|c| !c.is_null()) {
         let attrs = c["attrs"]
             .as_array()
